@@ -265,6 +265,11 @@ def _hdf5_read_signal(rfilename, dtype, key, **kwargs):
 
 def _numpy_binary_read_signal(rfilename, dtype, key, **kwargs):
     data = np.load(rfilename, **kwargs)
+    if not isinstance(data, np.ndarray):
+        # np.load sniffs the content: an .npz archive comes back as an NpzFile
+        if hasattr(data, "close"):
+            data.close()
+        raise IOError("not a numpy binary (.npy): loaded a {}".format(type(data).__name__))
     if dtype:
         data = data.astype(dtype)
     return data
